@@ -43,39 +43,55 @@ func (g *gQuery1of[T]) Q() *ecs.Query         { return &g.q.Query }
 func (g *gQuery1of[T]) Get() []unsafe.Pointer { return []unsafe.Pointer{unsafe.Pointer(g.q.Get())} }
 func (g *gQuery1of[T]) Relation() ecs.Entity  { return g.q.Relation() }
 
-func mkSingle[T any]() gSingle {
+func mkSingleWith[T any](mp func(w *ecs.World) *generic.Map[T]) gSingle {
 	return gSingle{
 		set: func(w *ecs.World, e ecs.Entity, v any) unsafe.Pointer {
-			m := generic.NewMap[T](w)
+			m := mp(w)
 			return unsafe.Pointer(m.Set(e, v.(*T)))
 		},
 		get: func(w *ecs.World, e ecs.Entity) unsafe.Pointer {
-			m := generic.NewMap[T](w)
+			m := mp(w)
 			return unsafe.Pointer(m.Get(e))
 		},
 		getUnchecked: func(w *ecs.World, e ecs.Entity) unsafe.Pointer {
-			m := generic.NewMap[T](w)
+			m := mp(w)
 			return unsafe.Pointer(m.GetUnchecked(e))
 		},
-		has: func(w *ecs.World, e ecs.Entity) bool { m := generic.NewMap[T](w); return m.Has(e) && m.HasUnchecked(e) },
+		has: func(w *ecs.World, e ecs.Entity) bool { m := mp(w); return m.Has(e) && m.HasUnchecked(e) },
 		getRel: func(w *ecs.World, e ecs.Entity) ecs.Entity {
-			m := generic.NewMap[T](w)
+			m := mp(w)
 			if m.GetRelationUnchecked(e) != m.GetRelation(e) {
 				panic("GetRelationUnchecked differs from GetRelation")
 			}
 			return m.GetRelation(e)
 		},
-		setRel: func(w *ecs.World, e, t ecs.Entity) { m := generic.NewMap[T](w); m.SetRelation(e, t) },
+		setRel: func(w *ecs.World, e, t ecs.Entity) { m := mp(w); m.SetRelation(e, t) },
 		setRelBatch: func(w *ecs.World, f ecs.Filter, t ecs.Entity) int {
-			m := generic.NewMap[T](w)
+			m := mp(w)
 			return m.SetRelationBatch(f, t)
 		},
 		setRelBatchQ: func(w *ecs.World, f ecs.Filter, t ecs.Entity) gQuery {
-			m := generic.NewMap[T](w)
+			m := mp(w)
 			return &gQuery1of[T]{m.SetRelationBatchQ(f, t)}
 		},
-		id: func(w *ecs.World) ecs.ID { m := generic.NewMap[T](w); return m.ID() },
+		id: func(w *ecs.World) ecs.ID { m := mp(w); return m.ID() },
 	}
+}
+
+func mkSingle[T any]() gSingle {
+	return mkSingleWith[T](func(w *ecs.World) *generic.Map[T] { m := generic.NewMap[T](w); return &m })
+}
+
+// bindSingle returns accessors that all go through ONE generic.Map[T] created now.
+func bindSingle[T any](w *ecs.World) gSingle {
+	m := generic.NewMap[T](w)
+	return mkSingleWith[T](func(*ecs.World) *generic.Map[T] { return &m })
+}
+
+var gSingleBinders = map[string]func(w *ecs.World) gSingle{
+	"S0": bindSingle[G0], "S1": bindSingle[G1], "S2": bindSingle[G2], "S3": bindSingle[G3], "S4": bindSingle[G4], "S5": bindSingle[G5],
+	"S6": bindSingle[G6], "S7": bindSingle[G7], "S8": bindSingle[G8], "S9": bindSingle[G9], "S10": bindSingle[G10], "S11": bindSingle[G11],
+	"R0": bindSingle[RelA], "R1": bindSingle[RelB], "R2": bindSingle[RelC],
 }
 
 var gSingles = map[string]gSingle{
@@ -136,6 +152,14 @@ func (s *Sess) visitG(q gQuery, ids []int, relT *Ent, inner func(*ecs.Query)) fu
 	}
 }
 
+// gexState is a generic.Exchange object with what it is currently configured with.
+type gexState struct {
+	x          *generic.Exchange
+	add, rem   []int
+	rel        int
+	configured bool
+}
+
 type gfState struct {
 	f          gFilter
 	n          int
@@ -147,6 +171,7 @@ type gfState struct {
 	relComp    int
 	fixedT     *Ent
 	registered bool
+	owner      *Sess // the session in whose world the filter is registered (filters shared by several worlds: C19)
 	queries    int
 }
 
@@ -190,7 +215,22 @@ func (s *Sess) callGeneric(op *Op, out *Outcome) {
 	s.Cov.N["generic:"+op.GK]++
 	switch op.GK {
 	case "Map.New", "Map.NewBatch", "Map.NewWith", "Map.Add", "Map.AddBatch", "Map.Assign", "Map.Remove", "Map.RemoveBatch", "Map.RemoveEntities", "Map.Get":
-		m := gInsts[gKey{op.GN, op.GRel}].NewMap(w, op.GWithRel)
+		// two out of three ops go through a mapper that lives as long as the session (created at first use)
+		var m gMap
+		mk := fmt.Sprint(op.GN, op.GRel, op.GWithRel)
+		if s.step%3 != 0 {
+			if s.gmaps == nil {
+				s.gmaps = map[string]gMap{}
+			}
+			if m = s.gmaps[mk]; m == nil {
+				m = gInsts[gKey{op.GN, op.GRel}].NewMap(w, op.GWithRel)
+				s.gmaps[mk] = m
+			} else {
+				s.Cov.N["generic_longlived_mapper_calls"]++
+			}
+		} else {
+			m = gInsts[gKey{op.GN, op.GRel}].NewMap(w, op.GWithRel)
+		}
 		ids := s.gIDs(op.GN, op.GRel)
 		s.Cov.N[fmt.Sprintf("generic_arity_%02d", op.GN)]++
 		var vals []any
@@ -248,6 +288,19 @@ func (s *Sess) callGeneric(op *Op, out *Outcome) {
 		}
 	case "Single.Set", "Single.Get", "Single.SetRelation", "Single.SetRelationBatch":
 		sg := gSingles[op.Key]
+		if s.step%3 != 0 {
+			if s.gsingles == nil {
+				s.gsingles = map[string]*gSingle{}
+			}
+			if b := s.gsingles[op.Key]; b != nil {
+				sg = *b
+				s.Cov.N["generic_longlived_map_calls"]++
+			} else {
+				b := gSingleBinders[op.Key](w)
+				s.gsingles[op.Key] = &b
+				sg = b
+			}
+		}
 		id := s.keyID(op.Key)
 		if sg.id(w) != s.IDs[id] {
 			s.fail("generic.map.id", "Map[%s].ID() is not the component's ID", op.Key)
@@ -281,20 +334,56 @@ func (s *Sess) callGeneric(op *Op, out *Outcome) {
 			}
 		}
 	case "Ex.NewEntity", "Ex.Add", "Ex.Remove", "Ex.Exchange", "Ex.ExchangeBatch":
-		x := generic.NewExchange(w)
-		// vary the order of the builder calls
+		// Adds/Removes *set* the lists, so an Exchange object can be re-configured; two out of three ops re-use one
+		// of two long-lived objects (whatever they were configured with before), the others take a new one
+		var x *generic.Exchange
+		var xs *gexState
+		if s.step%3 != 0 {
+			if s.gex[op.Trav%2] == nil {
+				s.gex[op.Trav%2] = &gexState{x: generic.NewExchange(w), rel: -1}
+			} else {
+				s.Cov.N["generic_longlived_exchange_calls"]++
+			}
+			xs = s.gex[op.Trav%2]
+		} else {
+			xs = &gexState{x: generic.NewExchange(w), rel: -1}
+		}
+		x = xs.x
+		// vary the order of the builder calls; a call that would only repeat what the object is already configured
+		// with is left out in two of three cases (the configuration is what counts, not how often it was stated)
+		skip := func(same bool) bool { return same && xs.configured && (s.step/3)%3 != 0 }
 		steps := []func(){
-			func() { x.Adds(s.compsOf(op.Add)...) },
-			func() { x.Removes(s.compsOf(op.Rem)...) },
+			func() {
+				if !skip(eqInts(xs.add, op.Add)) {
+					x.Adds(s.compsOf(op.Add)...)
+				} else {
+					s.Cov.N["generic_exchange_calls_left_out"]++
+				}
+			},
+			func() {
+				if !skip(eqInts(xs.rem, op.Rem)) {
+					x.Removes(s.compsOf(op.Rem)...)
+				} else {
+					s.Cov.N["generic_exchange_calls_left_out"]++
+				}
+			},
 			func() {
 				if op.Rel != nil {
-					x.WithRelation(generic.Comp(s.M.Types[*op.Rel].Type))
+					if !skip(xs.rel == *op.Rel) {
+						x.WithRelation(generic.Comp(s.M.Types[*op.Rel].Type))
+					} else {
+						s.Cov.N["generic_exchange_calls_left_out"]++
+					}
 				}
 			},
 		}
 		perm := [][]int{{0, 1, 2}, {2, 0, 1}, {1, 2, 0}, {0, 2, 1}, {2, 1, 0}, {1, 0, 2}}[op.Trav%6]
 		for _, i := range perm {
 			steps[i]()
+		}
+		xs.add, xs.rem, xs.configured = append([]int{}, op.Add...), append([]int{}, op.Rem...), true
+		if op.Rel != nil {
+			xs.rel = *op.Rel
 		}
 		switch op.GK {
 		case "Ex.NewEntity":
@@ -339,9 +428,11 @@ func (s *Sess) callGeneric(op *Op, out *Outcome) {
 		if op.Alt {
 			st.f.Unregister(w)
 			st.registered = false
+			st.owner = nil
 		} else {
 			st.f.Register(w)
 			st.registered = true
+			st.owner = s
 		}
 	case "GF.Query":
 		st := s.gfs[*op.Slot]
@@ -594,8 +685,14 @@ func (g *Gen) genericFilterOp() *Op {
 		return &Op{K: "GFNew", GK: "GF.New", GN: n, GRel: rel, Slot: ip(g.nextSlot)}
 	}
 	slots := []int{}
-	for sl := range s.gfs {
+	for sl, st := range s.gfs {
+		if st.registered && st.owner != s {
+			continue // registered in another world: only that world may use it until it is unregistered
+		}
 		slots = append(slots, sl)
+	}
+	if len(slots) == 0 {
+		return nil
 	}
 	sortInts(slots)
 	sl := Pick(R, slots)
@@ -616,7 +713,9 @@ func (g *Gen) genericFilterOp() *Op {
 		if st.registered {
 			return nil
 		}
-		c := g.subsetAny(minus(others(), g.isRel), 2)
+		// (a type may have been declared optional before it is included: what counts is the configuration at query time)
+		withCands := minus(g.used(), func(x int) bool { return contains(st.include, x) || contains(st.without, x) || g.isRel(x) })
+		c := g.subsetAny(withCands, 2)
 		if len(c) == 0 {
 			return nil
 		}
@@ -635,7 +734,12 @@ func (g *Gen) genericFilterOp() *Op {
 			return nil
 		}
 		own := s.gIDs(st.n, st.rel)
-		cands := minus(own, func(x int) bool { return contains(st.optional, x) || x == st.relComp || s.M.Types[x].Rel })
+		pool := own
+		if R.Chance(0.4) {
+			// any type: one added by With earlier, or one that is not (yet) part of the filter at all
+			pool = minus(g.used(), func(x int) bool { return contains(st.without, x) })
+		}
+		cands := minus(pool, func(x int) bool { return contains(st.optional, x) || x == st.relComp || s.M.Types[x].Rel })
 		if len(cands) == 0 {
 			return nil
 		}
